@@ -32,6 +32,12 @@ ASSUMPTIONS = [
 
 @st.composite
 def cases(draw, tier):
+    if draw(st.integers(0, 19)) == 0:
+        # hundreds / thousands of rows, random / sorted / in blocks of 64 or 1024 identical rows (a recipe)
+        spec = draw(Q.large_specs(["count"]))
+        spec["rma"] = draw(st.sampled_from(["nan", ["tuple", 0], "plain"]))
+        spec["poolsize"] = draw(st.sampled_from([None, None, 4]))
+        return spec
     nd_kind = draw(st.integers(0, 3))
     if nd_kind == 0:
         spec = draw(Q.cube_specs(max_nd=4, min_nd=4, max_n=30,
@@ -48,6 +54,9 @@ def cases(draw, tier):
 def check(case, rec):
     import numpy
 
+    if case.get("recipe"):
+        rec.note("large recipe case (rows %s)" % case.get("rows"))
+    case = Q.expand(case)
     dense = Q.dense_dims(case)
     N = case["N"]
     nd = len(dense)
